@@ -34,6 +34,8 @@ FAIL = 1e-8
 def classify_exc(e):
     s = str(e)
     n = type(e).__name__
+    if n == 'GeomError':
+        return 'inconsistent:geometry'
     if isinstance(e, AttributeError) and "'connectivity'" in s:
         return 'unsupported:no-connectivity'           # boundary/interfaces of a topology without connectivity: by design
     if isinstance(e, AttributeError) and 'MosaicReference' in s and 'child_refs' in s:
@@ -52,6 +54,10 @@ def short_tb(e):
 
 # ================================================================ helpers: exact geometry from transform chains
 
+class GeomError(Exception):
+    """the transform chains of the real topology are geometrically inconsistent (detected by the harness extraction)"""
+
+
 def _cube(n):
     return numpy.array(list(itertools.product([0., 1.], repeat=n)), dtype=float).reshape(2**n, n)
 
@@ -63,7 +69,7 @@ def chain_box(chain, nd):
     idx = []
     for t in chain[1:1+nd]:
         if not isinstance(t, transform.Index):
-            raise ValueError('not a structured chain: %r' % (chain,))
+            raise GeomError('not a structured chain: %r' % (chain,))
         idx.append(int(t.index))
     tail = chain[1+nd:]
     fromdims = tail[-1].fromdims if tail else nd
@@ -76,17 +82,17 @@ def chain_box(chain, nd):
 def _exact_int(v):
     r = round(v)
     if r != v:
-        raise ValueError('non-integer coordinate %r' % v)
+        raise GeomError('non-integer coordinate %r' % v)
     return int(r)
 
 
 def box_cell(lo, hi):
     size = hi - lo
     if not (size == size[0]).all() or size[0] <= 0:
-        raise ValueError('not a cube: %r %r' % (lo, hi))
+        raise GeomError('not a cube: %r %r' % (lo, hi))
     L = -math.log2(size[0])
     if L != int(L):
-        raise ValueError('not dyadic: %r' % size[0])
+        raise GeomError('not dyadic: %r' % size[0])
     L = int(L)
     return L, tuple(_exact_int(v * 2**L) for v in lo)
 
@@ -104,13 +110,13 @@ def face_of(topo, chain, nd, cellcache):
     lo, hi = chain_box(chain, nd)
     flat = [k for k in range(nd) if lo[k] == hi[k]]
     if len(flat) != 1:
-        raise ValueError('face is not axis aligned: %r %r' % (lo, hi))
+        raise GeomError('face is not axis aligned: %r %r' % (lo, hi))
     k = flat[0]
     if lo[k] == ohi[k]: s = 1
     elif lo[k] == olo[k]: s = -1
-    else: raise ValueError('face %r %r not on the hull of its owner %r %r' % (lo, hi, olo, ohi))
+    else: raise GeomError('face %r %r not on the hull of its owner %r %r' % (lo, hi, olo, ohi))
     if (lo < olo).any() or (hi > ohi).any():
-        raise ValueError('face sticks out of its owner')
+        raise GeomError('face sticks out of its owner')
     return int(ielem), box_cell(olo, ohi), k, s, (tuple(lo), tuple(hi))
 
 
@@ -267,16 +273,16 @@ def run(c):
     # ---- generate all cases on the real code, collect model requests
     c.log('built + audited')
     ctx.known_probes(); c.log('probes done')
-    ctx.gen_trim1d(60 if quick else 4000); c.log('trim1d generated')
-    ctx.gen_grid(40 if quick else 1500); c.log('grid generated')
-    ctx.gen_hier(40 if quick else 1500); c.log('hier generated')
+    ctx.gen_trim1d(150 if quick else 4000); c.log('trim1d generated')
+    ctx.gen_grid(80 if quick else 1500); c.log('grid generated')
+    ctx.gen_hier(80 if quick else 1500); c.log('hier generated')
     # ---- one batch to the Lean model
     ans = c.model([r for r, _ in ctx.requests]); c.log('model answered %d requests' % len(ans))
     for (req, cb), a in zip(ctx.requests, ans):
         cb(req, a)
     ctx.finish_structural()
     # ---- spec-oracle numeric streams
-    ctx.numeric(28 if quick else 1200)
+    ctx.numeric(60 if quick else 1200)
     ctx.finish_numeric()
     for b in broken:
         c.broken_no_input('proof', b, dict(detail=b))
@@ -296,8 +302,8 @@ class Ctx:
         self.c.broken_no_input('corr:' + stream, what, replay)
 
     def fail(self, stream, sig, what, replay):
-        self.bad[stream] = self.bad.get(stream, 0) + 1
-        self.c.failing_input(sig, what, replay)
+        if self.c.failing_input(sig, what, replay):      # False for an open known finding
+            self.bad[stream] = self.bad.get(stream, 0) + 1
 
     # ------------------------------------------------------------ known / candidate findings: deterministic probes
     def known_probes(self):
@@ -487,7 +493,7 @@ class Ctx:
             cells = [chain_cell(ch, nd) for ch in t.transforms]
             flat = {}
             for i, (L, idx) in enumerate(cells):
-                if L != nref: raise ValueError('element of level %d in a level-%d grid' % (L, nref))
+                if L != nref: raise GeomError('element of level %d in a level-%d grid' % (L, nref))
                 flat[i] = int(numpy.ravel_multi_index(idx, shape))
             real['elems'] = [flat[i] for i in range(len(cells))]
             cache = {}
@@ -518,7 +524,13 @@ class Ctx:
             if f[0] != 'ok':
                 self.disagree('grid', 'model rejects the request: ' + a, dict(desc, request=req)); return
             if 'exc' in real:
-                self.disagree('grid', 'real code raises where the model has a result: ' + real['exc'], dict(desc, real=real)); return
+                if real['cls'] == 'inconsistent:geometry':
+                    self.fail('grid', 'grid-faces:inconsistent-chains', 'boundary / interface chains of the topology are geometrically inconsistent: ' + real['exc'], dict(desc, real=real))
+                elif real['cls'].startswith('crash'):
+                    self.fail('grid', 'grid:crash:' + real['cls'].split(':')[1], 'subset of a structured topology raises ' + real['exc'], dict(desc, real=real))
+                else:
+                    self.disagree('grid', 'real code raises where the model has a result: ' + real['exc'], dict(desc, real=real))
+                return
             self.c.traces += 1
             mconn = [[int(v) for v in row.split()] for row in f[1].split(';')]
             mb = sorted(tuple(int(v) for v in p.split(',')) for p in f[2].split(';') if p)
@@ -669,21 +681,25 @@ class Ctx:
             real['full'] = all(type(r).__name__ in ('TensorReference', 'LineReference') for r in topo.references)
             # final slice of a hierarchical topology (exact oracle only)
             sliced = None
+            nlead = 0       # uniform refinements of the structured base itself: the slice then counts cells of that level
+            for o in ops:
+                if o != 'R': break
+                nlead += 1
+            olo, ohi, oper, oshift = list(lo), list(hi), list(bper), nref
             if mode == 'plain' and rng.random() < .25 and type(topo).__name__ == 'HierarchicalTopology':
                 k = rng.randrange(nd)
-                if hi[k] - lo[k] > 1:
-                    a = rng.randrange(0, hi[k] - lo[k]); b = rng.randint(a + 1, hi[k] - lo[k])
-                    if (a, b) != (0, hi[k] - lo[k]):
+                width = (hi[k] - lo[k]) << nlead
+                if width > 1:
+                    a = rng.randrange(0, width); b = rng.randint(a + 1, width)
+                    if (a, b) != (0, width):
                         sliced = (k, a, b)
                         stopo = topo[(slice(None),) * k + (slice(a, b),)]
                         real['sliced_cells'] = [chain_cell(ch, nd) for ch in stopo.transforms]
                         steps.append('[%d:%d @%d]' % (a, b, k))
+                        olo = [v << nlead for v in lo]; ohi = [v << nlead for v in hi]; oshift = nref + nlead
+                        olo[k], ohi[k], oper[k] = (lo[k] << nlead) + a, (lo[k] << nlead) + b, 0
             obs = stopo if sliced else topo
-            olo, ohi, oper = list(lo), list(hi), list(bper)
-            if sliced:
-                k, a, b = sliced
-                olo[k], ohi[k], oper[k] = lo[k] + a, lo[k] + b, 0
-            real['obs'] = dict(lo=olo, hi=ohi, per=oper)
+            real['obs'] = dict(lo=olo, hi=ohi, per=oper, shift=oshift)
             cache = {}
             real['faces'] = type(obs).__name__ in ('HierarchicalTopology', 'StructuredTopology')
             if real['faces']:
@@ -713,7 +729,13 @@ class Ctx:
         c.sample(dict(desc, nelems=len(real.get('cells', []))), limit=4)
         if 'exc' in real:
             # every generated history is valid: the model has a result, so this is a disagreement (or a crash)
-            if real['cls'].startswith('crash'):
+            if 'cells' in real and min(l for l, _ in real['cells']) >= nref:
+                defect = HierSpec(lo, hi, bper).check_partition([(l - nref, idx) for l, idx in real['cells']])
+                if defect:
+                    self.fail('hier', 'hier-cells:' + defect.split(' ')[0], 'after the history the elements do not partition the base: ' + defect, dict(desc, cells=real['cells'])); return
+            if real['cls'] == 'inconsistent:geometry':
+                self.fail('hier', 'hier-faces:inconsistent-chains', 'boundary / interface chains of the hierarchical topology are geometrically inconsistent: ' + real['exc'], dict(desc, real=real))
+            elif real['cls'].startswith('crash'):
                 self.fail('hier', 'hier:crash:' + real['cls'].split(':')[1], 'a history of refinements on a structured topology raises ' + real['exc'], dict(desc, real=real))
             else:
                 self.disagree('hier', 'real code raises on a valid history: ' + real['exc'], dict(desc, real=real))
@@ -751,9 +773,10 @@ class Ctx:
             self.fail('hier', 'hier-cells:partial-reference', 'an element of a refined structured topology has a partial reference', dict(desc)); return
         o = real['obs']
         ospec = HierSpec(o['lo'], o['hi'], o['per'])
+        def sh(cell): return (cell[0] - o['shift'], cell[1])      # levels relative to the grid the observed topology is based on
         ocells = [sh(cl) for cl in real.get('sliced_cells', real['cells'])]
         if 'sliced_cells' in real:
-            want = [cl for cl in cells if all(o['lo'][k] << cl[0] <= cl[1][k] < o['hi'][k] << cl[0] for k in range(nd))]
+            want = [sh(cl) for cl in real['cells'] if all(o['lo'][k] << (cl[0] - o['shift']) <= cl[1][k] < o['hi'][k] << (cl[0] - o['shift']) for k in range(nd))]
             if sorted(want) != sorted(ocells):
                 self.fail('hier', 'hier-slice:wrong-elements', 'slice of a hierarchical topology selects the wrong elements', dict(desc, got=ocells, want=want)); return
         if real['faces'] is not True:
@@ -825,7 +848,7 @@ class Ctx:
             sub = rng.choice(['L', 'two', 'cube2'])
             ne = rng.choice([1, 2, 2, 3])
             if sub == 'L':
-                verts = [[i, j] for i in range(3) for j in range(3)]
+                verts = [[i, j] for i in range(3) for j in range(3)][:8]
                 patches = [[0, 1, 3, 4], [1, 2, 4, 5], [3, 4, 6, 7]]
                 vol = Fraction(3)
             elif sub == 'two':
@@ -917,9 +940,9 @@ class Ctx:
                     op = 'trim'
                 elif kind in ('trimmed', 'trimline') and hist['trim']:
                     op = rng.choice([op_refined, op_refined_by])
-                elif kind == 'simplex' and rng.random() < .25 and nd == 2 and not hist['hier']:
+                elif kind == 'simplex' and rng.random() < .25 and nd == 2 and not hist['hier'] and not hist['trim']:
                     op = 'trim'
-                elif kind == 'multipatch' and rng.random() < .25 and not hist['hier']:
+                elif kind == 'multipatch' and rng.random() < .25 and not hist['hier'] and not hist['trim']:
                     op = 'trim'
                 else:
                     op = rng.choice([op_refined, op_refined_by, op_refined_by, op_subset] if not hist['hier'] else [op_refined, op_refined_by])
@@ -976,7 +999,8 @@ class Ctx:
                     rp = bp.integrate(funcs, degree=2); rn = bn.integrate(funcs, degree=2)
                     checks.append(('cut:normals', float(numpy.abs(rp[0] + rn[0]).max()), 'trimmed'))
                     checks.append(('cut:measure', float(rp[1] - rn[1]), 'trimmed'))
-                    checks.append(('cut:moments', float(numpy.abs(rp[2] + rn[2]).max()), 'trimmed'))
+                    if not periodic:   # across a periodic seam the two sides of the cut sit one period apart
+                        checks.append(('cut:moments', float(numpy.abs(rp[2] + rn[2]).max()), 'trimmed'))
                 except KeyError:
                     c.count('numeric:cut-empty')
         except Exception as e:
